@@ -2,7 +2,7 @@
 C06 helper lemmas, part C1: every spelling of the literal grammar denotes, in the model of
 `compiler.parse`/`NumInfo.decimal`, exactly the value the spec assigns to it (`literal_value`,
 `literal_litValue`); outside the exponent window it is an error (`literal_window_error`); whatever
-is accepted has the spec's value, up to the 34-digit product (`literal_sound`).
+is accepted has the spec's kind and value (`literal_sound`).
 Core Lean (`Rat` is core); single Mathlib modules may be imported here if really needed.
 The supporting lemmas are in `Proofs/NumValLitAux.lean`.
 -/
@@ -21,16 +21,15 @@ theorem horner_digitsVal (base : Nat) (hb : base ≤ 16) (ds : List Nat) (h : wf
 
 /-- the value reader on a grammar spelling (all bases, separators, fraction, exponent,
 multipliers), inside the region where the implementation is right -/
-theorem literal_value (l : Lit) (hwf : l.wf = true) (hw : l.inWindow) (hi : l.siIntegral)
-    (hf : l.siFits prec) :
+theorem literal_value (l : Lit) (hwf : l.wf = true) (hw : l.inWindow) (hi : l.siIntegral) :
     ∃ n, readValue l.kind l.spell = .ok n ∧ n.k = l.kind ∧ toRat n.d = l.denote := by
   cases l with
   | dec ds => exact lit_dec ds hwf hw
   | bin ds => exact lit_bin ds hwf
   | oct ds => exact lit_oct ds hwf
   | hex u ds => exact lit_hex u ds hwf
-  | si ip fp m => exact lit_si ip fp m hwf hw hi hf
-  | siDot fp m => exact lit_siDot fp m hwf hw hi hf
+  | si ip fp m => exact lit_si ip fp m hwf hw hi
+  | siDot fp m => exact lit_siDot fp m hwf hw hi
   | fPoint ip fp ex => exact lit_fPoint ip fp ex hwf hw
   | fExp ip ex => exact lit_fExp ip ex hwf hw
   | fDot fp ex => exact lit_fDot fp ex hwf hw
@@ -61,27 +60,27 @@ theorem literal_accepted : literal_accepted_stmt :=
 /-- gate and value reader together: `compiler.parse` on a grammar spelling, inside the region
 where the implementation is right -/
 theorem literal_litValue (l : Lit) (hwf : l.wf = true) (hz : l.siLeadingZero = false)
-    (hw : l.inWindow) (hi : l.siIntegral) (hf : l.siFits prec) :
+    (hw : l.inWindow) (hi : l.siIntegral) :
     ∃ n, litValue l.spell = .ok n ∧ n.k = l.kind ∧ toRat n.d = l.denote := by
-  have := literal_value l hwf hw hi hf
+  have := literal_value l hwf hw hi
   unfold litValue
   rw [literal_accepted l hwf hz]
   exact this
 
 /-- an accepted multiplied spelling whose product fits the precision is integral -/
 theorem literal_integral (l : Lit) (hwf : l.wf = true) (hw : l.inWindow)
-    (hf : l.siFits prec) (n : Num) (h : readValue l.kind l.spell = .ok n) : l.siIntegral := by
+    (n : Num) (h : readValue l.kind l.spell = .ok n) : l.siIntegral := by
   cases l with
-  | si ip fp m => exact lit_si_integral ip fp m hwf hw hf n h
-  | siDot fp m => exact lit_siDot_integral fp m hwf hw hf n h
+  | si ip fp m => exact lit_si_integral ip fp m hwf hw n h
+  | siDot fp m => exact lit_siDot_integral fp m hwf hw n h
   | _ => trivial
 
 /-- soundness of the value reader: whatever it accepts has the spec's value -/
-theorem literal_read_sound (l : Lit) (hwf : l.wf = true) (hf : l.siFits prec) (n : Num)
+theorem literal_read_sound (l : Lit) (hwf : l.wf = true) (n : Num)
     (h : readValue l.kind l.spell = .ok n) : n.k = l.kind ∧ toRat n.d = l.denote := by
   by_cases hw : l.inWindow
-  · have hi := literal_integral l hwf hw hf n h
-    obtain ⟨n', h1, h2, h3⟩ := literal_value l hwf hw hi hf
+  · have hi := literal_integral l hwf hw n h
+    obtain ⟨n', h1, h2, h3⟩ := literal_value l hwf hw hi
     rw [h1] at h
     injection h with h
     subst h
@@ -90,10 +89,9 @@ theorem literal_read_sound (l : Lit) (hwf : l.wf = true) (hf : l.siFits prec) (n
     cases h
 
 /-- soundness of `compiler.parse` on the grammar's spellings: whenever a spelling is accepted its
-kind and value are the spec's; the only excluded region is a multiplied mantissa of more than 34
-significant digits (`literal_false_round`).  Rejections (`literal_false_trunc`, leading zeros,
+kind and value are the spec's, unconditionally.  Rejections (`literal_false_trunc`, leading zeros,
 the exponent window) are not wrong values. -/
-theorem literal_sound (l : Lit) (hwf : l.wf = true) (hf : l.siFits prec) (n : Num)
+theorem literal_sound (l : Lit) (hwf : l.wf = true) (n : Num)
     (h : litValue l.spell = .ok n) : n.k = l.kind ∧ toRat n.d = l.denote := by
   unfold litValue at h
   cases hk : NumLit.parseNumUnsigned l.spell with
@@ -113,7 +111,7 @@ theorem literal_sound (l : Lit) (hwf : l.wf = true) (hf : l.siFits prec) (n : Nu
         | _ => simp [Lit.siLeadingZero] at hz
     have h' : readValue k l.spell = .ok n := h
     rw [hk'] at h'
-    exact literal_read_sound l hwf hf n h'
+    exact literal_read_sound l hwf n h'
 
 /-- full statement: every grammar spelling is accepted and denotes the spec's value -/
 def literal_stmt : Prop :=
@@ -149,24 +147,11 @@ theorem literal_bare_zero_ok :
     litValue (Lit.si [48] none ⟨.K, false⟩).spell = .ok ⟨.int, ⟨0, 0⟩⟩ := by
   decide
 
-/-- `12345678901234567890123456789012345678K` is silently rounded to 34 digits -/
-theorem literal_false_round :
+/-- `12345678901234567890123456789012345678K` (a product of more than 34 digits) is exact -/
+theorem literal_big_mantissa_ok :
     litValue (Lit.si [49,50,51,52,53,54,55,56,57,48,49,50,51,52,53,54,55,56,57,48,49,50,51,52,53,54,55,56,57,48,49,50,51,52,53,54,55,56] none ⟨.K, false⟩).spell
-      = .ok ⟨.int, ⟨12345678901234567890123456789012350000000, 0⟩⟩ ∧
-    (Lit.si [49,50,51,52,53,54,55,56,57,48,49,50,51,52,53,54,55,56,57,48,49,50,51,52,53,54,55,56,57,48,49,50,51,52,53,54,55,56] none ⟨.K, false⟩).denote
-      = 12345678901234567890123456789012345678000 := by
-  refine ⟨by decide, ?_⟩
-  have a : digitsVal 10 [49,50,51,52,53,54,55,56,57,48,49,50,51,52,53,54,55,56,57,48,49,50,51,52,53,54,55,56,57,48,49,50,51,52,53,54,55,56]
-      = 12345678901234567890123456789012345678 := by decide
-  have z : digitsVal 10 [] = 0 := rfl
-  have nz : nDigits [] = 0 := rfl
-  have hm : mantissa [49,50,51,52,53,54,55,56,57,48,49,50,51,52,53,54,55,56,57,48,49,50,51,52,53,54,55,56,57,48,49,50,51,52,53,54,55,56] [] * ((1000 : Nat) : Rat)
-      = ((12345678901234567890123456789012345678000 : Int) : Rat) := by
-    simp only [mantissa, a, z, nz]
-    simp; grind
-  show ((truncNonneg (mantissa _ [] * ((1000 : Nat) : Rat)) : Int) : Rat) = _
-  rw [floor_int _ _ hm, hm]
-  simp
+      = .ok ⟨.int, ⟨12345678901234567890123456789012345678000, 0⟩⟩ := by
+  decide
 
 theorem literal_false : ¬ literal_stmt := by
   intro h
